@@ -7,6 +7,9 @@ import ast
 import json
 import os
 import sys
+sys.path.insert(0, os.path.dirname(os.path.dirname(os.path.abspath(__file__))))
+
+from xdstat import loader  # noqa: E402
 
 
 def top(body):
@@ -23,6 +26,8 @@ def top(body):
 def main():
     root = sys.argv[1] if len(sys.argv) > 1 else '/repo/src'
     tab = {}
+    digests = {}
+    attrs = {}
     for dp, _dn, fn in os.walk(os.path.join(root, 'xdoctest')):
         for f in fn:
             if not f.endswith('.py'):
@@ -40,8 +45,10 @@ def main():
                         if isinstance(m, (ast.FunctionDef, ast.AsyncFunctionDef)):
                             names.append(n.name + '.' + m.name)
             tab[rel] = sorted(names)
+            digests[rel] = {q: loader.fn_digest(n) for q, n in loader.function_table(t).items()}
+            attrs[rel] = loader.attr_signatures(t)
     out = os.path.join(os.path.dirname(os.path.dirname(os.path.abspath(__file__))), 'xdstat', 'known_functions.json')
-    json.dump(tab, open(out, 'w'), indent=0, sort_keys=True)
+    json.dump({'functions': tab, 'digests': digests, 'attrs': attrs}, open(out, 'w'), indent=0, sort_keys=True)
     print('%d names in %d modules -> %s' % (sum(len(v) for v in tab.values()), len(tab), out))
 
 
